@@ -63,8 +63,10 @@ type c08Life struct {
 	bd, td   uint64
 	contract []byte
 	head     *c08LifeHdr
-	phase    string // "create" | "upgrade" | "toggle": how the configuration in force was installed
-	updates  int    // accepted updates since then
+	phase    string                      // "create" | "upgrade" | "toggle": how the configuration in force was installed
+	updates  int                         // accepted updates since then
+	known    map[common.Hash]*c08LifeHdr // every header the harness saw accepted (its own header tree)
+	reorged  bool                        // the last accepted update was not a child of the head
 }
 
 func newC08Life() *c08Life {
@@ -119,11 +121,8 @@ func (l *c08Life) apply(r *Rec, w *c08World, op string) (string, string) {
 	case "create", "toggle", "upgrade":
 		td, bd, chainID, trusting, contract := c08U(f[2]), c08U(f[3]), c08U(f[4]), c08U(f[5]), unhx(f[6])
 		h := &c08LifeHdr{rn: c08U(f[7]), rh: c08U(f[8]), root: unhx(f[10]), time: c08U(f[11])}
-		if l.head != nil && f[1] == "upgrade" {
-			h.parent = l.head.hash()
-		}
-		if hx(h.hash().Bytes()) != f[9] { // replay of a line: the parent hash is not on the line; keep the recorded hash authoritative
-			h.parent = common.Hash{}
+		if len(f) > 14 {
+			h.parent = common.BytesToHash(unhx(f[14]))
 		}
 		p := h.proto()
 		cs := &ethtypes.ClientState{Header: p, ChainId: chainID, ContractAddress: contract, TrustingPeriod: trusting, TimeDelay: td, BlockDelay: bd}
@@ -145,11 +144,20 @@ func (l *c08Life) apply(r *Rec, w *c08World, op string) (string, string) {
 		if err != nil {
 			r.t.Fatalf("C08 life %s: %v", f[1], err)
 		}
-		l.created, l.bd, l.td, l.contract, l.head, l.phase, l.updates = true, bd, td, contract, h, f[1], 0
+		l.created, l.bd, l.td, l.contract, l.head, l.phase, l.updates, l.reorged = true, bd, td, contract, h, f[1], 0, false
+		if f[1] != "upgrade" || l.known == nil {
+			l.known = map[common.Hash]*c08LifeHdr{}
+		}
+		l.known[h.hash()] = h
 		r.Count("life." + f[1])
 		return op, "ok " + l.dump()
 	case "update":
 		h := &c08LifeHdr{rn: c08U(f[3]), rh: c08U(f[4]), root: unhx(f[6]), time: c08U(f[7]), parent: l.head.hash()}
+		if len(f) > 8 { // not a child of the head: a competing child of another accepted header
+			h.parent = common.BytesToHash(unhx(f[8]))
+		}
+		fork := h.parent != l.head.hash()
+		oldHead := l.head
 		if f[2] == "bad" {
 			h.parent[0] ^= 0xff // unknown parent
 		}
@@ -167,8 +175,29 @@ func (l *c08Life) apply(r *Rec, w *c08World, op string) (string, string) {
 			l.ctx = l.ctx.WithBlockTime(time.Unix(int64(h.time), 0))
 			res = "ok"
 			if f[2] == "good" {
-				l.head = h
+				// own fork choice = the rule of the ETH client: every accepted header is adopted as the head
+				l.head, l.reorged = h, fork
+				l.known[h.hash()] = h
 				l.updates++
+				if fork {
+					switch {
+					case h.rh < oldHead.rh:
+						r.Count("life.reorg.tip-below-head")
+					case h.rh == oldHead.rh:
+						r.Count("life.reorg.tip-at-head")
+					default:
+						r.Count("life.reorg.tip-above-head")
+					}
+				}
+				// cross-check with the client state the keeper stored
+				if csI, ok := ck.GetClientState(l.ctx, c08LifeName); ok {
+					if cs, ok := csI.(*ethtypes.ClientState); ok && cs.Header.Hash() != h.hash() {
+						r.Find(Finding{Sig: "C08:stored-head-is-not-the-adopted-header", What: fmt.Sprintf("after an accepted update to %d-%d (fork=%v, old head %d-%d) the stored client state still has head %s", h.rn, h.rh, fork, oldHead.rn, oldHead.rh, cs.Header.Height),
+							Ops: append([]string{}, l.hist...), Obs: cs.Header.Height.String(), Req: fmt.Sprintf("%d-%d", h.rn, h.rh)})
+					} else if ok && fork {
+						r.Count("life.reorg.switched")
+					}
+				}
 			}
 		}
 		if (f[2] == "good") != (err == nil) {
@@ -201,18 +230,46 @@ func (l *c08Life) apply(r *Rec, w *c08World, op string) (string, string) {
 		if e, err := ethtypes.GetConsensusState(store, l.app.AppCodec(), height); err == nil {
 			consRoot, haveCons = e.Root, true
 		}
-		line := strings.Join(f[:10], " ") + " | " + c08Derived("eth", proof, consRoot, haveCons)
+		tag := "main"
+		core := strings.Join(f[:10], " ")
+		if len(f) > 10 && f[10] != "|" {
+			tag = f[10]
+			core += " " + tag
+		}
+		line := core + " | " + c08Derived("eth", proof, consRoot, haveCons)
 		l.hist[len(l.hist)-1] = line
 		// ---- oracle with the harness's OWN record of the configured delay and of the accepted headers (never the stored
 		// client state); every life-cycle verification carries a genuine proof of a true claim at a stored height ----
-		if hRn == l.head.rn && hRh <= l.head.rh {
+		after := "after-" + l.phase
+		if l.updates > 0 {
+			after = "after-update"
+			if l.phase != "create" {
+				after += "-after-" + l.phase
+			}
+			if l.reorged {
+				after = "after-reorg"
+			}
+		}
+		// tag (from the generator's own header tree): main = the proof is from the state of the adopted chain's header at
+		// that height; abandoned = from a header of an abandoned branch with another root; above-head = above the own head
+		switch {
+		case hRn != l.head.rn:
+		case tag == "above-head" || hRh > l.head.rh:
+			if out == "ok" {
+				r.Find(Finding{Sig: "C08:accepted-above-head:" + after, What: fmt.Sprintf("proof at height %d accepted, the head the client adopted last is %d", hRh, l.head.rh),
+					Ops: append([]string{}, l.hist...), Obs: "ok", Req: "rejected"})
+			}
+			r.Count("life." + after + ".above-head-proof")
+		case tag == "abandoned":
+			if out == "ok" {
+				r.Find(Finding{Sig: "C08:accepted-abandoned-branch-root:" + after, What: fmt.Sprintf("proof under the root of an abandoned branch's header at height %d accepted (head %d)", hRh, l.head.rh),
+					Ops: append([]string{}, l.hist...), Obs: "ok", Req: "rejected"})
+			}
+			r.Count("life." + after + ".abandoned-branch-proof")
+		default:
 			depth := l.head.rh - hRh
-			after := "after-" + l.phase
-			if l.updates > 0 {
-				after = "after-update"
-				if l.phase != "create" {
-					after += "-after-" + l.phase
-				}
+			if l.reorged {
+				r.Count("life.after-reorg." + map[bool]string{true: "confirmed", false: "young"}[depth >= l.bd])
 			}
 			switch {
 			case out == "ok" && depth < l.bd:
@@ -258,7 +315,6 @@ func c08LifeHistory(r *Rec, l *c08Life, w *c08World, emit func(op, out string)) 
 	if r.Rng.Intn(4) == 0 {
 		rn = uint64(1 + r.Rng.Intn(3))
 	}
-	stateAt := map[uint64]*c08State{} // own record: block number -> EVM state whose root the accepted header carried
 	cfg := func(what string, td, bd, rh uint64, st *c08State) string {
 		h := &c08LifeHdr{rn: rn, rh: rh, root: st.root.Bytes(), time: now}
 		if what == "upgrade" && l.head != nil {
@@ -271,21 +327,50 @@ func c08LifeHistory(r *Rec, l *c08Life, w *c08World, emit func(op, out string)) 
 		case 1:
 			irh = rh + 7
 		}
-		return fmt.Sprintf("lc %s %d %d 4 1000000000 %s %d %d %s %s %d %d %d", what, td, bd, hx(w.contract), rn, rh, hx(h.hash().Bytes()), hx(st.root.Bytes()), now, irn, irh)
+		line := fmt.Sprintf("lc %s %d %d 4 1000000000 %s %d %d %s %s %d %d %d", what, td, bd, hx(w.contract), rn, rh, hx(h.hash().Bytes()), hx(st.root.Bytes()), now, irn, irh)
+		if what == "upgrade" && l.head != nil {
+			line += " " + hx(h.parent.Bytes()) // the upgrade header is a child of the head: the header index keeps the link
+		}
+		return line
 	}
 	run := func(op string) string {
 		line, out := l.apply(r, w, op)
 		emit(line, out)
 		return out
 	}
-	verifyAll := func(after string) {
-		var hs []uint64
-		for h := range stateAt {
-			hs = append(hs, h)
+	stOf := map[common.Hash]*c08State{}    // own record: accepted header -> the EVM state whose root it carries
+	mainAt := func(h uint64) *c08LifeHdr { // the header of the adopted chain (own head's ancestry) at a height
+		for x := l.head; x != nil; x = l.known[x.parent] {
+			if x.rh == h {
+				return x
+			}
+			if x.rh < h {
+				return nil
+			}
 		}
-		sort.Slice(hs, func(i, j int) bool { return hs[i] < hs[j] })
-		for _, h := range hs {
-			st := stateAt[h]
+		return nil
+	}
+	verifyAll := func(after string) {
+		var xs []*c08LifeHdr
+		for _, x := range l.known {
+			if stOf[x.hash()] != nil && x.rh+5 >= l.head.rh && x.rh <= l.head.rh+4 {
+				xs = append(xs, x)
+			}
+		}
+		sort.Slice(xs, func(i, j int) bool {
+			if xs[i].rh != xs[j].rh {
+				return xs[i].rh < xs[j].rh
+			}
+			return hx(xs[i].hash().Bytes()) < hx(xs[j].hash().Bytes())
+		})
+		for _, x := range xs {
+			h, st := x.rh, stOf[x.hash()]
+			tag := "main"
+			if h > l.head.rh {
+				tag = "above-head"
+			} else if m := mainAt(h); m == nil || (m != x && string(m.root) != string(x.root)) {
+				tag = "abandoned"
+			}
 			var p c08Path
 			found := false
 			for _, i := range r.Rng.Perm(len(w.paths)) {
@@ -300,45 +385,100 @@ func c08LifeHistory(r *Rec, l *c08Life, w *c08World, emit func(op, out string)) 
 			slot := c08Slot(p.kind, p.src, p.dst, p.seq)
 			value := c08Pad32(st.accts[string(w.contract)].storage[string(slot)])
 			rec := st.genuine(l.contract, slot)
-			out := run(fmt.Sprintf("lc verify %s %d %d %s %s %d %s %s", p.kind, rn, h, hxs(p.src), hxs(p.dst), p.seq, hx(value), base64.StdEncoding.EncodeToString(rec.json())))
+			run(fmt.Sprintf("lc verify %s %d %d %s %s %d %s %s %s", p.kind, rn, h, hxs(p.src), hxs(p.dst), p.seq, hx(value), base64.StdEncoding.EncodeToString(rec.json()), tag))
+			if tag != "main" {
+				continue
+			}
 			depth := l.head.rh - h
 			confirmed := depth >= l.bd
-			_ = out
 			r.Count(fmt.Sprintf("life.%s.%s.%s", shape, after, map[bool]string{true: "confirmed", false: "young"}[confirmed]))
 			if depth == l.bd || depth+1 == l.bd {
 				r.Count("life.boundary." + shape + "." + after)
 			}
 		}
 	}
-	stateAt[base] = w.states[0]
 	run(cfg("create", td, bd, base, w.states[0]))
+	stOf[l.head.hash()] = w.states[0]
 	verifyAll("after-create")
-	steps := 3 + r.Rng.Intn(4)
+	steps := 4 + r.Rng.Intn(5)
 	for i := 0; i < steps; i++ {
 		now += 12
 		next := l.head.rh + 1
 		st := w.states[(i+1)%len(w.states)]
-		switch x := r.Rng.Intn(10); {
+		switch x := r.Rng.Intn(12); {
 		case x < 2 && i > 0: // upgrade: possibly another delay shape; the old consensus states stay
 			shape = []string{"0/N", "N/0", "N/M", "equal"}[r.Rng.Intn(4)]
 			td, bd = delays(shape)
-			stateAt[next] = st
 			run(cfg("upgrade", td, bd, next, st))
+			stOf[l.head.hash()] = st
 			verifyAll("after-upgrade")
 		case x < 4 && i > 0: // toggle to a TSS client and back: the store is cleared
 			shape = []string{"0/N", "N/0", "N/M", "equal"}[r.Rng.Intn(4)]
 			td, bd = delays(shape)
-			stateAt = map[uint64]*c08State{next: st}
 			run(cfg("toggle", td, bd, next, st))
+			stOf = map[common.Hash]*c08State{l.head.hash(): st}
 			verifyAll("after-toggle")
 		case x == 4:
 			run(fmt.Sprintf("lc update bad %d %d %s %s %d", rn, next, hx((&c08LifeHdr{rn: rn, rh: next, root: st.root.Bytes(), time: now, parent: l.head.hash()}).hash().Bytes()), hx(st.root.Bytes()), now))
 			verifyAll("after-rejected-update")
+		case x < 8 && len(l.known) > 1:
+			// a competing child of another accepted header (an ancestor of the head, or a header of an abandoned branch): the
+			// client adopts it, so the head moves down, sideways or up
+			var cands []*c08LifeHdr
+			for _, x := range l.known {
+				if x != l.head && x.hash() != l.head.hash() {
+					cands = append(cands, x)
+				}
+			}
+			sort.Slice(cands, func(i, j int) bool { return hx(cands[i].hash().Bytes()) < hx(cands[j].hash().Bytes()) })
+			pnt := cands[r.Rng.Intn(len(cands))]
+			switch c08LifeCycle2 % 3 { // steer towards the three tip positions
+			case 0:
+				for _, c := range cands {
+					if c.rh+1 < l.head.rh {
+						pnt = c
+					}
+				}
+			case 1:
+				for _, c := range cands {
+					if c.rh+1 == l.head.rh {
+						pnt = c
+					}
+				}
+			case 2:
+				for _, c := range cands {
+					if c.rh+1 > l.head.rh {
+						pnt = c
+					}
+				}
+			}
+			c08LifeCycle2++
+			fst := st
+			for _, cand := range w.states { // another root than the headers already known at that height, if possible
+				clash := false
+				for _, x := range l.known {
+					if x.rh == pnt.rh+1 && string(x.root) == string(cand.root.Bytes()) {
+						clash = true
+					}
+				}
+				if !clash {
+					fst = cand
+				}
+			}
+			h := &c08LifeHdr{rn: rn, rh: pnt.rh + 1, root: fst.root.Bytes(), time: now, parent: pnt.hash()}
+			if _, dup := l.known[h.hash()]; dup {
+				h.time++ // never the same header twice
+			}
+			run(fmt.Sprintf("lc update good %d %d %s %s %d %s", rn, h.rh, hx(h.hash().Bytes()), hx(fst.root.Bytes()), h.time, hx(pnt.hash().Bytes())))
+			if l.head.hash() == h.hash() {
+				stOf[h.hash()] = fst
+			}
+			verifyAll("after-reorg")
 		default:
 			h := &c08LifeHdr{rn: rn, rh: next, root: st.root.Bytes(), time: now, parent: l.head.hash()}
 			run(fmt.Sprintf("lc update good %d %d %s %s %d", rn, next, hx(h.hash().Bytes()), hx(st.root.Bytes()), now))
-			if l.head.rh == next {
-				stateAt[next] = st
+			if l.head.hash() == h.hash() {
+				stOf[h.hash()] = st
 			}
 			after := "after-update"
 			if l.phase != "create" {
@@ -348,6 +488,8 @@ func c08LifeHistory(r *Rec, l *c08Life, w *c08World, emit func(op, out string)) 
 		}
 	}
 }
+
+var c08LifeCycle2 int
 
 var c08LifeCycle int
 
